@@ -269,6 +269,9 @@ def run(P, rep, tier):
         n = check_kind(cg, rep, 'R20.7', 'gen_addr', kind, preset(cg, kind))
         if n == 0:
             rep.undecided('R20.7', '%s:gen_addr:%s' % (U, kind), 'no returning path for a kind gen_addr has an arm for')
+    from ..lib_types import r_atomic_builtin_operands
+    rep.rule('R20.8', 'typing relation the per-kind effect rules rely on for the atomic builtins: add_type converts the value operand of ND_EXCH / ND_CAS to the type of the atomic object for every arithmetic operand type, so no long double operand stays on the x87 stack and no floating operand in %xmm0', floor=200)
+    r_atomic_builtin_operands(P, rep, 'R20.8')
     from .c04 import r_alloca
     rep.rule('R20.6', 'alloca moves every pending pushed temporary down with %rsp (full byte count, same distance), so later pops read what was pushed', floor=5)
     r_alloca(cg, rep, rule='R20.6')
@@ -282,9 +285,9 @@ def r_calls(cg, P, rep, tier):
     """ND_FUNCALL is analysed on concrete calls (argument lists make the per-kind exploration explode):
     for each argument class at each stack parity the stack pushed for the call is released after it."""
     from ..lib_abi import Builder
-    from .c06 import run_caller
+    from .c06 import run_caller, run_return, ret_locs
     from ..x86 import Unknown
-    rep.rule('R20.5', 'call expressions: everything pushed for a call (arguments, alignment padding, long double slots) is released after it, and `depth` returns to its value before the call, for every argument class and stack parity', floor=30)
+    rep.rule('R20.5', 'call expressions: everything pushed for a call (arguments, alignment padding, long double slots) is released after it, and `depth` returns to its value before the call, for every argument class and stack parity; a result of class X87 (long double, or an aggregate that is one long double) is taken from %st(0) by the caller exactly when the callee left it there, also when the value of the call is discarded', floor=60)
     B = Builder(P)
     where = '%s:%d' % (U, cg.cu.fn('push_args').line if cg.cu.fn('push_args') else 0)
     sigs = [[], ['int'], ['double'], ['ldouble'], ['s_ld'], ['s_l3'], ['long'] * 7, ['long'] * 8, ['double'] * 9, ['double'] * 10,
@@ -293,19 +296,48 @@ def r_calls(cg, P, rep, tier):
     for ret in ('int', 'ldouble', 's_ll', 's_l3'):
         for types in sigs:
             for depth0 in (0, 1):
-                key = '%s:ND_FUNCALL:(%s)->%s/depth%d' % (U, ','.join(types), ret, depth0)
-                try:
-                    ctx, tr, s = run_caller(cg, B, types, ret, depth0)
-                except Unknown as e:
-                    rep.undecided('R20.5', key, str(e), where=where); continue
-                dd = ctx.globals.get('depth')
-                ok = len(s.stack) == 0 and dd == depth0
-                rep.ob('R20.5', key, ok, 'after the call %d pushed slot(s) are still on the stack and `depth` is %r (was %d): each evaluation of this call leaks stack' % (len(s.stack), dd, depth0), where=where, facts={'trace': tr.text()[-12:]})
-                want87 = 1 if ret == 'ldouble' else 0
-                # x87: a long double result is left in st0 by the callee (('retst', n) in the machine); every argument must have been popped
-                left = [x for x in s.st if not (isinstance(x, tuple) and x[0] == 'retst')]
-                nres = len(s.st) - len(left)
-                rep.ob('R20.5', key + ':x87', not left and nres == want87, 'after the call %d long double argument value(s) are still on the x87 stack and %d result value(s) (expected %d)' % (len(left), nres, want87), where=where)
+                _call(cg, B, rep, types, ret, depth0, 'gen_expr', where)
+    # every return class of an aggregate (INTEGER/SSE registers, X87 = %st(0), MEMORY), as an operand and as a discarded value
+    agg = ('s_ll', 's_dd', 's_ld', 's_L', 's_Le', 'u_Ll', 'u_Ld', 's_l3')
+    for ret in ('int', 'double', 'ldouble') + agg:
+        for entry in ('gen_expr', 'gen_discard'):
+            if entry == 'gen_discard' and not cg.cu.fn('gen_discard'):
+                continue
+            if entry == 'gen_expr' and ret in ('int', 'ldouble', 's_ll', 's_l3'):
+                continue
+            _call(cg, B, rep, ['int'], ret, 0, entry, where)
+    # callee side: `return v;` of every aggregate return class leaves on the x87 stack exactly what the caller takes from it
+    for t in agg:
+        key = '%s:ND_RETURN:returns-%s:x87' % (U, t)
+        try:
+            tr, s2 = run_return(cg, B, t)
+        except Unknown as e:
+            rep.undecided('R20.5', key, str(e), where=where); continue
+        want = 1 if ret_locs(t) == 'X87' else 0
+        rep.ob('R20.5', key, len(s2.st) == want and len(s2.stack) == 0,
+               'returning an aggregate of type %s leaves %d value(s) on the x87 stack at the epilogue (the caller takes %d from it: psABI class %s) and %d pushed slot(s)' % (t, len(s2.st), want, ret_locs(t) if isinstance(ret_locs(t), str) else 'INTEGER/SSE', len(s2.stack)),
+               where=where, facts={'trace': tr.text()[-12:]})
+
+
+def _call(cg, B, rep, types, ret, depth0, entry, where):
+    from .c06 import run_caller
+    from ..x86 import Unknown
+    key = '%s:ND_FUNCALL:(%s)->%s/depth%d' % (U, ','.join(types), ret, depth0)
+    if entry != 'gen_expr':
+        key += '/discarded'
+    try:
+        ctx, tr, s = run_caller(cg, B, types, ret, depth0, entry=entry)
+    except Unknown as e:
+        rep.undecided('R20.5', key, str(e), where=where); return
+    dd = ctx.globals.get('depth')
+    ok = len(s.stack) == 0 and dd == depth0
+    rep.ob('R20.5', key, ok, 'after the call %d pushed slot(s) are still on the stack and `depth` is %r (was %d): each evaluation of this call leaks stack' % (len(s.stack), dd, depth0), where=where, facts={'trace': tr.text()[-12:]})
+    want87 = 1 if (ret == 'ldouble' and entry == 'gen_expr') else 0
+    # x87: a long double / class X87 result is left in st0 by the callee (('retst', n) in the machine); every argument must have been popped,
+    # and the result must be gone unless it is the value of the expression
+    left = [x for x in s.st if not (isinstance(x, tuple) and x[0] == 'retst')]
+    nres = len(s.st) - len(left)
+    rep.ob('R20.5', key + ':x87', not left and nres == want87, 'after the call %d long double argument value(s) are still on the x87 stack and %d result value(s) (expected %d)' % (len(left), nres, want87), where=where)
 
 
 def expr_kinds_handled(cg, fname='gen_expr'):
